@@ -183,6 +183,10 @@ class Models(object):
         # text only used for error messages: opaque
         R('<str as ToString>::to_string|<String as Clone>::clone|fmt::format', lambda ex, fr, c, a, st, pc: (('string', 'opaque'), S.TRUE))
         R('v5::new_v5', self.uuid_v5)
+        R('Uuid::nil', lambda ex, fr, c, a, st, pc: (S.bv(0, 128), S.TRUE))
+        R('Uuid::is_nil', lambda ex, fr, c, a, st, pc: (S.Eq(self._deep(st, a[0]), S.bv(0, 128)), S.TRUE))
+        R('v4::new_v4|Uuid::new_v4', lambda ex, fr, c, a, st, pc: (self.fresh_var('random_uuid', 128), S.TRUE))
+        R('<Uuid as PartialEq>::eq|<&Uuid as PartialEq>::eq', lambda ex, fr, c, a, st, pc: (S.Eq(self._deep(st, a[0]), self._deep(st, a[1])), S.TRUE))
         # --- formatting is opaque (the text is not the subject of any check that runs Display)
         opaque = lambda ex, fr, c, a, st, pc: (('fmt', 'opaque'), S.TRUE)
         R('slice::join|Argument::new_display|Argument::new_debug|Arguments::new|Arguments::new_const|<Arc as ToString>::to_string|<OrderType as ToString>::to_string', opaque)
